@@ -575,7 +575,7 @@ func genC17(r *rand.Rand, tier string, idx int) *World {
 	w.EDS = []*EDSDef{e}
 	w.Extra["batchFail"] = []string{"none", "some", "all"}[idx%3]
 	w.Extra["c17"] = "1"
-	w.Cfg = Config{ChaosSteps: pick(r, 30, 80), Kubelet: true, KubeletFaults: chance(r, 0.3), CLI: true, TemplateEdits: true, Stall: false, QuiesceRounds: 3}
+	w.Cfg = Config{ChaosSteps: pick(r, 30, 80), Kubelet: true, KubeletFaults: chance(r, 0.3), CLI: true, TemplateEdits: true, Stall: false, QuiesceRounds: 3, ERSTouch: chance(r, 0.5)}
 	w.Settings = []*SettingDef{{NS: "ns1", Name: "set0", Ref: "foo", Selector: map[string]string{"zone": "a"}, Container: "main", Cpu: "500m"}}
 	return w
 }
@@ -604,7 +604,24 @@ func bodyC17(s *Sim) {
 		}
 	}
 	s.Advance(11 * time.Second)
-	s.RunTask(CtrlERS, rk)
+	if s.W.Cfg.ERSTouch {
+		// somebody annotates the replica set between the sync's read of it and its status write
+		s.StartReconcile(CtrlERS, rk)
+		synctestWait()
+		if p := s.canonicalPending(); len(p) > 0 {
+			s.grant(p[0], "")
+		}
+		if r := s.Store.GetERS(rk.Namespace, rk.Name); r != nil {
+			if r.Annotations == nil {
+				r.Annotations = map[string]string{}
+			}
+			r.Annotations["touched"] = "mid-sync"
+			s.Store.ForceUpdate(r)
+		}
+		s.Drain()
+	} else {
+		s.RunTask(CtrlERS, rk)
+	}
 	s.settleAll()
 	// a template change: simultaneous update-deletions (and a canary in some worlds)
 	s.userSetTemplate(def.NS, def.Name, "B")
